@@ -145,17 +145,11 @@ impl Sys for Sys13 {
     }
 }
 
-pub fn roots(quick: bool) -> Vec<Cfg> {
+pub fn roots(_quick: bool) -> Vec<Cfg> {
     let mut v = Vec::new();
     for (i, info) in BUILTINS.iter().enumerate() {
-        if quick && !matches!(i, 0 | 1 | 2 | 7 | 10 | 11 | 12 | 13) {
-            continue;
-        }
         for tr in [Transport::RecSerial, Transport::RecPar8, Transport::RecPar16, Transport::Spi { len: 8 }, Transport::Par8, Transport::Par16] {
             if !info.supports[tr.kind_idx()] || (info.c666 && tr.bus16()) {
-                continue;
-            }
-            if quick && tr.is_real() && !matches!(i, 2 | 12) {
                 continue;
             }
             v.push(Cfg { model: ModelId::Builtin(i as u8), tr, win: Some((6, 5, 1, 2)), orient: 0, bgr: false, invert: false, refresh: 0, rst: false });
